@@ -305,9 +305,45 @@ def tree_text(tree):
     return out
 
 
+def struct_value(n):
+    """The value of the expression a tree IS, computed from its nodes (left / right / name / value) with the documented operators --
+    not through Node.position, so that a remembered or otherwise stale position cannot vouch for itself."""
+    from opytimizer.utils import constants as oc
+    if n.type == 'TERMINAL':
+        return n.value
+    x = struct_value(n.left)
+    y = struct_value(n.right) if n.right is not None else None
+    nm = n.name
+    if nm == 'SUM':
+        return x + y
+    if nm == 'SUB':
+        return x - y
+    if nm == 'MUL':
+        return x * y
+    if nm == 'DIV':
+        return x / (y + oc.EPSILON)
+    if nm == 'EXP':
+        return np.exp(x)
+    if nm == 'SQRT':
+        return np.sqrt(np.abs(x))
+    if nm == 'LOG':
+        return np.log(np.abs(x) + oc.EPSILON)
+    if nm == 'ABS':
+        return np.abs(x)
+    if nm == 'SIN':
+        return np.sin(x)
+    if nm == 'COS':
+        return np.cos(x)
+    raise KeyError(nm)
+
+
 def tree_value(t):
-    """Value of a tree computed on a private deep copy, so that observing never touches the live terminal arrays."""
-    return np.array(copy.deepcopy(t).position, copy=True, dtype=float)
+    """Value of a tree: of its expression when the tree is well formed (struct_value), else what a private deep copy reports."""
+    try:
+        with np.errstate(all='ignore'):
+            return np.array(struct_value(t), copy=True, dtype=float)
+    except Exception:  # noqa: BLE001   (malformed tree, unknown operator, recursion limit: C08/C09/C10's subjects)
+        return np.array(copy.deepcopy(t).position, copy=True, dtype=float)
 
 
 def tree_ser(n):
@@ -710,6 +746,18 @@ class Patches:
             N._evaluate = ev
         except Exception:  # noqa: BLE001
             pass
+        if mon.cfg.get('clock') == 'frozen':
+            # a clock that does not advance during the task (a coarse wall clock and a tiny task, a virtual clock): elapsed time 0.0
+            try:
+                import types
+                import opytimizer.opytimizer as OO
+                if isinstance(getattr(OO, 'time', None), types.ModuleType):
+                    self.saved.append((OO, 'time', OO.time))
+                    shim = types.SimpleNamespace(**{k: getattr(OO.time, k) for k in dir(OO.time) if not k.startswith('__')})
+                    shim.time = lambda: 1.7e9
+                    OO.time = shim
+            except Exception:  # noqa: BLE001
+                pass
         self.olderr = np.geterr()
         self.oldcall = np.geterrcall()
 
@@ -898,6 +946,9 @@ def check_c03(mon):
     if out['status'] == 'exception':
         site = phase_site(out['sites'])
         cls = failure_class(mon)
+        if out['type'] == 'ZeroDivisionError' and mon.evals and all(r is None or isinstance(r['val'], np.generic) for r in mon.evals):
+            # the recorded 0/0 findings raise for Python-float fitnesses; NumPy-scalar fitnesses divide to NaN/inf with a warning
+            cls += ':numpy-scalar-fitnesses'
         mon.v('C03', '%s:%s:%s' % (site, out['type'], cls),
               'start() raised %s (%s) in %s [%s]' % (out['type'], out['msg'], site, cls), out['type'] + ': ' + out['msg'], 'returns normally')
         return
